@@ -15,7 +15,9 @@
 (*    k = "int" | "bool" | "str" | "A" | "B" | "none"   plain classes       *)
 (*        (bool <: int, B <: A, "none" is NoneType), args = <<>>            *)
 (*    k = "any"                                          typing.Any         *)
-(*    k = "list" | "dict" | "tuple"   generic origin; args = <<>> is the    *)
+(*    k = "list" | "dict" | "tuple" | "seq" | "iter" | "mapping"  generic    *)
+(*        origin (seq/iter/mapping: collections.abc.Sequence / Iterable /   *)
+(*        Mapping, superclasses of the concrete ones); args = <<>> is the   *)
 (*        unparameterised form, otherwise the type arguments                *)
 (*    k = "union"   X | Y | ...  (Optional[X] is union(X, none)); the       *)
 (*        members are already flattened and de-duplicated (the harness      *)
@@ -45,7 +47,11 @@ Same(a, b) ==
             /\ \A i \in 1..Arity(a) : Same(a.args[i], b.args[i])
 
 (* Rule "subclassing" on plain classes and on generic origins.              *)
-SubClassPairs == {<<"bool", "int">>, <<"B", "A">>}
+SubClassPairs == {<<"bool", "int">>, <<"B", "A">>,
+                  \* generic origins: list/tuple <: Sequence <: Iterable, dict <: Mapping <: Iterable (issubclass on the ABCs)
+                  <<"list", "seq">>, <<"tuple", "seq">>, <<"list", "iter">>, <<"tuple", "iter">>, <<"seq", "iter">>,
+                  <<"dict", "mapping">>, <<"dict", "iter">>, <<"mapping", "iter">>,
+                  <<"str", "seq">>, <<"str", "iter">>}      \* str is itself a Sequence (unparameterised on the incoming side: S2)
 SubOrigin(a, b) == a = b \/ <<a, b>> \in SubClassPairs
 
 (***************************************************************************)
